@@ -538,6 +538,33 @@ def main(argv):
         lines.append("VIOLATION property=%s replay=%s" % (pid, os.path.relpath(path, VERIF)))
         n_new_viol += 1
         exit_code = 1
+    if problems and not n_new_viol and cfg.get("extend"):
+        # The correspondence is broken but P held on everything explored so far:
+        # search near the disagreeing histories (area-specific extensions of the
+        # history up to the disagreeing step) for an input on which P fails.
+        mism = [p for p in problems if p[0] == "mismatch"][:6]
+        kinds = cfg.get("violation_kinds")
+        for (_, _, v) in mism:
+            cands = cfg["extend"](v["history"], v["step"])
+            if not cands:
+                continue
+            verdicts, err = replay_histories(v["bin"], cands, "%s_%s_ext" % (pid, v["harness"]))
+            hit = None
+            for w in verdicts or []:
+                if w["v"] == "violation" and (kinds is None or any(w["kind"].startswith(k) for k in kinds)) \
+                        and not known_match(pid, w["kind"], known):
+                    hit = w
+                    break
+            if hit:
+                small = minimise(v["bin"], hit["history"], hit, "%s_%s" % (pid, v["harness"]))
+                path = write_replay(pid, seed, re.sub(r"\W+", "_", hit["kind"])[:40], {
+                    "property": pid, "kind": hit["kind"], "step": hit["step"], "harness": v["harness"],
+                    "history": small, "found_by": "extension search after a model/implementation mismatch",
+                    "how": "bin/check %s --replay <this file>" % pid})
+                lines.append("VIOLATION property=%s replay=%s" % (pid, os.path.relpath(path, VERIF)))
+                n_new_viol += 1
+                exit_code = 1
+                break
     if problems and not n_new_viol:
         # the property is no longer shown; no failing input found by the search above
         mism = [p for p in problems if p[0] == "mismatch"]
